@@ -934,7 +934,13 @@ def process_model_stat(ck, case):
                 f"pdf({pts.tolist()}) = {got.tolist()}, closed form {want.tolist()}")
     # (2) draw_sample: marginal of hs and PIT of tz | hs
     np.random.seed(case["seed"] % 2 ** 32)
-    smp = np.asarray(t.draw_sample(n), dtype=float)
+    import inspect
+
+    if "random_state" in inspect.signature(t.draw_sample).parameters:
+        # the seeded path (the one contours and marginal_icdf use since the random_state repair)
+        smp = np.asarray(t.draw_sample(n, random_state=case["seed"]), dtype=float)
+    else:
+        smp = np.asarray(t.draw_sample(n), dtype=float)
     eps = dkw_eps(n)
     if smp.shape != (n, 2):
         ck.fail({"entry": "TransformedModel.draw_sample", "predicate": "shape_n_by_ndim"}, case, f"{smp.shape}")
@@ -1113,8 +1119,9 @@ def main(ck):
             for i, q in enumerate((0.5, 0.9, 0.99, 0.999, 0.9999, 1 - 1e-6)):
                 process_conditional_stat(ck, {"part": "E-cond", "model": spec, "quantile": q, "n": 100000 if q < 0.99999 else 2000,
                                               "seed": int(rng.integers(0, 2 ** 31)), "wrappers": i == 0})
-        for spec in specs[:6]:
-            process_model_stat(ck, {"part": "E-model", "model": spec, "n": 100000, "seed": int(rng.integers(0, 2 ** 31)),
+        for k6, spec in enumerate(specs[:6]):
+            process_model_stat(ck, {"part": "E-model", "model": spec, "n": 100000,
+                                    "seed": int(rng.integers(0, 2 ** 31)) if k6 else 0,  # boundary seed 0 once
                                     "n_cdf": 2, "cached": spec is specs[0]})
         for spec, alpha in ((specs[0], 2e-3), (specs[1], 5e-3), (specs[1], 2e-2), (specs[2], 5e-3), (specs[3], 1e-2),
                             (specs[4], 2e-3), (specs[5], 5e-2), (specs[6], 5e-3)):
@@ -1129,7 +1136,9 @@ def main(ck):
         for spec, q, wr in plan:
             process_conditional_stat(ck, {"part": "E-cond", "model": spec, "quantile": q, "n": 100000 if q < 0.99999 else 2000,
                                           "seed": int(rng.integers(0, 2 ** 31)), "wrappers": wr})
-        process_model_stat(ck, {"part": "E-model", "model": predef_hss(other), "n": 100000, "seed": int(rng.integers(0, 2 ** 31)),
+        # the model statistics run with the boundary seed 0 (falsy in Python, legitimate as a seed) every time
+        rng.integers(0, 2 ** 31)
+        process_model_stat(ck, {"part": "E-model", "model": predef_hss(other), "n": 100000, "seed": 0,
                                 "n_cdf": 1})
         process_iform(ck, {"part": "E-iform", "model": predef_hss(other) if ck.seed % 3 else rnd, "alpha": float(rng.choice([2e-3, 1e-2, 2e-2])),
                            "n_points": 12, "precision_factor": 0.1, "random_state": int(rng.integers(0, 1000))})
